@@ -55,9 +55,9 @@ def display_issue(src, out):
         return "display-quote:nul-appended", "quoted line %r contains U+0000 which is not in the source line %r" % (quoted, want)
     if quoted != want and quoted != want.lstrip(" \t") and not (want.endswith(quoted) and want[:len(want) - len(quoted)].strip(" \t") == ""):
         if quoted in [l for l in lines] or quoted in [l.lstrip(" \t") for l in lines]:
-            # a line of the source, but not the one the cursor is on: line numbering is C18's subject (a line break
-            # directly after a backtick inside a literal is not registered by the lexer); C05 asks for an existing line
-            return None
+            # a line of the source, but not the one the error position is on (the lexer records every physical line up to
+            # the cursor — C18_lexer_lines_up_to_cursor — so the line that holds the position is known to it)
+            return "display-quote:wrong-line", "quoted %r is a line of the source but the error position (cursor %d) is on the line %r" % (quoted, cursor, want)
         return "display-quote:not-a-line", "quoted %r is not a line of the source (cursor line is %r)" % (quoted, want)
     return None
 
